@@ -159,7 +159,9 @@ def c06(pid, tier, seed, replay, ctx):
         return res
     # framework level: one fresh draw per transition lookup (Spec/C06.lean, fwMonitor) on the hooked log
     from props import fw_monitor_stage
-    n, mons = fw_monitor_stage(pid, tier, seed, ctx, [("general", 800, 20000), ("c08", 500, 10000), ("c07", 300, 5000), ("wide", 4, 60)])
+    # the hooked log (lookups, draws, samplings in order) must also equal the model's: tag L
+    n, mons, dis = fw_monitor_stage(pid, tier, seed, ctx, [("general", 800, 20000), ("c08", 500, 10000), ("c07", 300, 5000), ("wide", 4, 60)], tags=("L",))
+    res["model_disagreements"] += dis
     res["evaluations"] += n
     res["traces_validated_against_impl"] += n
     have = {k for k, _ in res["monitor_failures"]}
